@@ -180,6 +180,41 @@ def r_clashing_families(doc, rng):
                     yield 'family named %r inserted at %d (clashes with family %d)' % (nm, pos, fi), text_of(out + ['# EOF'])
 
 
+def r_stray_reserved_sample(doc, rng):
+    """a sample line WITHOUT metadata under a name some family of the document reserves (its bare name; for a typed family also
+    name + each suffix of its type), at every place where it is not a legal sample of the family it lands in: between any two
+    family blocks, in front of the first, behind the last, and — for a name the owner's type does not expose, e.g. the bare name
+    of a counter / histogram / gaugehistogram / info family — also at every position inside the owner's own block.  The line
+    opens an implicit `unknown` family that clashes with the owner."""
+    blocks = fam_blocks(doc)
+    for fi, (f, m, s) in enumerate(blocks):
+        typ = f.typ if typed(f) else 'unknown'
+        exposed = [f.name + suf for suf in omgen.EXPOSED_SUFFIXES[typ]]
+        reserved = [f.name] + [f.name + suf for suf in SUFFIXES[typ] if suf]
+        for nm in reserved:
+            line = omgen.stray_sample_line(nm)
+            legal = nm in exposed
+            kind = 'exposed' if legal else 'not exposed'
+            for pos in range(len(blocks) + 1):
+                if legal and pos == fi + 1:
+                    continue                          # directly behind its own family: one more sample of it
+                if legal and pos == fi and not m:
+                    continue                          # in front of a family without metadata lines: merges with it
+                out = []
+                for i, (g, gm, gs) in enumerate(blocks):
+                    if i == pos:
+                        out.append(line)
+                    out += gm + gs
+                if pos == len(blocks):
+                    out.append(line)
+                yield ('bare sample %r (reserved by %s family %d, %s by its type) at block position %d' % (nm, typ, fi, kind, pos),
+                       text_of(out + ['# EOF']))
+            if not legal:
+                for k in range(len(s) + 1):
+                    yield ('bare sample %r (reserved by %s family %d, not exposed by its type) inside the family after %d of its %d samples'
+                           % (nm, typ, fi, k, len(s)), render_with(doc, fi, samples=s[:k] + [line] + s[k:]))
+
+
 def r_unit_not_suffix(doc, rng):
     for fi, (f, m, s) in enumerate(fam_blocks(doc)):
         if f.typ in ('info', 'stateset'):
@@ -566,6 +601,7 @@ RULES = [
     ('repeated-metadata', r_repeated_metadata), ('repeated-metadata-empty-first', r_repeated_metadata_empty_first),
     ('late-metadata', r_late_metadata),
     ('interleaved-families', r_interleaved_families), ('clashing-families', r_clashing_families),
+    ('clashing-families', r_stray_reserved_sample),
     ('unit-not-suffix', r_unit_not_suffix), ('unit-on-info-stateset', r_unit_on_info_stateset),
     ('hist-no-inf', r_hist_no_inf), ('hist-bounds-not-increasing', r_hist_bounds_not_increasing),
     ('hist-bound-nan', r_hist_bound_nan), ('hist-counts-not-cumulative', r_hist_counts_not_cumulative), ('hist-non-integral', r_hist_non_integral),
@@ -603,17 +639,149 @@ EXEMPTIONS = [
 ]
 
 
+# --------------------------------------------------------------------------------------------------- histories
+# Rule enforcement must not depend on what the parser did before.  A `Forker` is a helper interpreter that imports the real
+# parser, optionally parses warm-up documents, and then, per request, FORKS: the child parses the request's documents in order
+# and reports the outcome of every step; the helper itself never parses again, so every request starts from exactly the same
+# process state (pristine: the parser has never run; warm: it has accepted families of every type).
+FORKER_SRC = r"""
+import json, os, signal, sys
+sys.path.insert(0, sys.argv[1])
+from prometheus_client.openmetrics import parser as OP
+def step(doc):
+    try:
+        list(OP.text_string_to_metric_families(doc))
+        return 'accepted'
+    except Exception as e:
+        return 'raises-' + type(e).__name__
+out = sys.stdout
+warm = json.loads(sys.stdin.readline())
+out.write(json.dumps([step(d) for d in warm]) + '\n'); out.flush()
+for line in sys.stdin:
+    docs = json.loads(line)
+    r, w = os.pipe()
+    pid = os.fork()
+    if pid == 0:
+        try:
+            os.close(r)
+            signal.alarm(%d)
+            os.write(w, json.dumps([step(d) for d in docs]).encode())
+        finally:
+            os._exit(0)
+    os.close(w)
+    buf = b''
+    while True:
+        chunk = os.read(r, 65536)
+        if not chunk:
+            break
+        buf += chunk
+    os.close(r)
+    os.waitpid(pid, 0)
+    out.write((buf.decode() if buf else json.dumps(['timeout'] * len(docs))) + '\n'); out.flush()
+""" % c14om.WATCHDOG_S
+
+
+class Forker:
+    def __init__(self, warmup=()):
+        import json
+        import subprocess
+        self.warmup = list(warmup)
+        self.p = subprocess.Popen([sys.executable, '-c', FORKER_SRC, lib.REPO], stdin=subprocess.PIPE, stdout=subprocess.PIPE,
+                                  text=True, encoding='utf-8')
+        self.warm_outcomes = self._ask(self.warmup)
+
+    def _ask(self, docs):
+        import json
+        try:
+            self.p.stdin.write(json.dumps(docs) + '\n')
+            self.p.stdin.flush()
+            line = self.p.stdout.readline()
+        except (BrokenPipeError, OSError):
+            line = ''
+        if not line:
+            raise lib.Infra('C15 history helper died (rc=%s)' % self.p.poll())
+        return json.loads(line)
+
+    def run(self, docs):
+        """outcomes ('accepted' | 'raises-<Class>' | 'timeout') of parsing docs in order in a fresh fork of the helper"""
+        return self._ask(list(docs))
+
+    def close(self):
+        try:
+            self.p.stdin.close()
+            self.p.wait(timeout=10)
+        except Exception:
+            self.p.kill()
+
+
+class Histories:
+    """the two helpers + the warm-up documents"""
+
+    def __init__(self, rng):
+        self.warm_docs = [d.render() for d in omgen.gen_warmup_docs(rng, 2)]
+        self.pristine = Forker()
+        self.warm = Forker(self.warm_docs)
+        bad = [o for o in self.warm.warm_outcomes if o != 'accepted']
+        if bad:
+            raise lib.Infra('generator produced a rejected warm-up document: %s' % bad)
+
+    def close(self):
+        self.pristine.close()
+        self.warm.close()
+
+    def outcomes(self, text, base=None):
+        """[(history description, outcome of `text` at that point)] — two forks: one of the pristine helper, one of the warm one"""
+        out = []
+        a = self.pristine.run([text, text] + ([base, text] if base is not None else [text]))
+        out += [('1st parse in a fresh process', a[0]), ('2nd parse of the same document in that process', a[1])]
+        if base is not None:
+            if a[2] != 'accepted':
+                out.append(('valid base document, parsed in that process after its rejected variant (must be accepted)', 'base:' + a[2]))
+            out.append(('parse in that process after the valid document it was derived from', a[3]))
+        else:
+            out.append(('3rd parse of the same document in that process', a[2]))
+        w = self.warm.run([text, text])
+        out += [('1st parse in a process warmed up with %d valid documents having families of every type' % len(self.warm_docs), w[0]),
+                ('2nd parse in that warmed-up process', w[1])]
+        return out
+
+
+def check_history(ctx, b, hs, rule, what, text, base=None):
+    """the transformed document is rejected with ValueError at EVERY point of every history"""
+    obs = hs.outcomes(text, base)
+    ctx.count('history:' + rule)
+    ctx.count('history-steps', len(obs))
+    summary = '; '.join('%s: %s' % (h, o) for h, o in obs)
+    for h, o in obs:
+        if o != 'raises-ValueError':
+            case = {'rule': rule, 'what': what, 'text': text, 'legacy': 0, 'history': h, 'base': base, 'warmup': hs.warm_docs,
+                    'observed': obs}
+            differs = len({o2 for _, o2 in obs}) > 1
+            b.fail('C15:%s:%s' % (rule, o if not o.startswith('base:') else 'valid-document-rejected'),
+                   'rule %s: %s — %s on the %s%s [%s]: %r' % (rule, what, o, h, ' (HISTORY-DEPENDENT outcome)' if differs else '',
+                                                              summary, text[:300]), case)
+            return False
+    return True
+
+
 def outcome(r):
     return 'accepted' if r[0] == 'ok' else ('raises-' + r[1] if r[0] == 'err' else 'timeout')
 
 
-def check_doc(ctx, b, rule, what, text, legacy=False):
+def check_doc(ctx, b, rule, what, text, legacy=False, hs=None):
     r = c14om.real_parse(text, legacy)
     case = {'rule': rule, 'what': what, 'text': text, 'legacy': int(legacy)}
     ctx.count('rule:' + rule)
     ctx.case(nontrivial_key=(rule, hash(text)), sample={'rule': rule, 'what': what, 'doc': text[:200], 'outcome': outcome(r)} if ctx.dist['rule:' + rule] == 1 else None)
     if r[0] == 'ok':
-        b.fail('C15:%s:accepted' % rule, 'rule %s: %s — accepted: %r' % (rule, what, text[:300]), case)
+        where = ''
+        if hs is not None and b.sig_seen.get('C15:%s:accepted' % rule, 0) < 3:
+            # accepted in this (long-running) process: what do a fresh and a warmed-up process say?
+            obs = hs.outcomes(text)
+            case.update(history='in the check process, after %d earlier parses' % ctx.evaluations, observed=obs, warmup=hs.warm_docs)
+            where = ' in the check process after many earlier parses [%s]%s' % (
+                '; '.join('%s: %s' % o for o in obs), ' (HISTORY-DEPENDENT outcome)' if any(o != 'accepted' for _, o in obs) else '')
+        b.fail('C15:%s:accepted' % rule, 'rule %s: %s — accepted%s: %r' % (rule, what, where, text[:300]), case)
     elif r[0] != 'err' or r[1] != 'ValueError':
         b.fail('C15:%s:%s' % (rule, outcome(r)), 'rule %s: %s — %s at %s' % (rule, what, outcome(r), r[2] if r[0] == 'err' else '-'), case)
     b.reqs.append('om parse %d %s' % (int(legacy), lib.hx(text)))
@@ -627,16 +795,30 @@ def run(ctx):
     ctx.rule = ('valid documents from harness/omgen.py (all 8 family types; 1–4 families; 1–3 groups each; varied numbers, timestamp forms, '
                 'exemplars, quoted names) × %d rule-violating transformations × every position where each applies (sampled down to a per-'
                 'document cap in the quick tier); a case is one transformed document, distinct by (rule, text); all are non-trivial: each '
-                'differs from an accepted document by one rule violation' % len(RULES))
+                'differs from an accepted document by one rule violation; HISTORIES: per (document, rule) a sample of the transformed documents is '
+                'parsed in fresh forks of a pristine helper process (1st/2nd/3rd parse; after its valid base document) and of a warmed-up one '
+                '(after valid documents with families of every type): ValueError at every step; 8 base documents have families [t, other, t] '
+                'for every type t, so each violation also sits behind a valid family of its own and of another type' % len(RULES))
     corecheck.run(ctx, 200 if quick else 3000)
     b = c14om.Batch(ctx)
     cap = 40 if quick else 400
     ndocs = (48 if quick else 400) * wide
     applicable = {name: 0 for name, _ in RULES}
+    hs = None
     try:
-        for i in range(ndocs):
-            if i < 16:
-                d = omgen.gen_doc(rng, types=[omgen.TYPES[i % 8], omgen.TYPES[(i // 8 + i + 3) % 8]], nfam=rng.choice([1, 2, 3]))
+        hs = Histories(rng)
+        # transformed documents per (document, rule) that go through every history; quick tier: on the structured documents only
+        nhist = (1 if quick else 12) * wide
+        hist_docs = (24 if quick else 10 ** 9) * wide
+        preceded = omgen.gen_preceded_docs(rng)
+        for i in range(ndocs + len(preceded)):
+            if i < len(preceded):
+                # families [t, o, t]: every rule at every family position — first of its type, after another type, after its own type
+                d = preceded[i][1]
+                ctx.count('base-documents:[t,o,t]')
+            elif i < len(preceded) + 16:
+                j = i - len(preceded)
+                d = omgen.gen_doc(rng, types=[omgen.TYPES[j % 8], omgen.TYPES[(j // 8 + j + 3) % 8]], nfam=rng.choice([1, 2, 3]))
             else:
                 d = omgen.gen_doc(rng)
             base = d.render()
@@ -654,10 +836,14 @@ def run(ctx):
                 ctx.count('positions:' + name, len(cases))
                 if len(cases) > cap:
                     cases = rng.sample(cases, cap)
+                cases = [(what, text) for what, text in cases if text != base]
+                # histories first (fresh forks of the two helper processes), then the in-process parse + model
+                for what, text in (() if i >= hist_docs else cases if len(cases) <= nhist else rng.sample(cases, nhist)):
+                    if ctx.time_left() is not None and ctx.time_left() < 5:
+                        break
+                    check_history(ctx, b, hs, name, what, text, base)
                 for what, text in cases:
-                    if text == base:
-                        continue
-                    check_doc(ctx, b, name, what, text)
+                    check_doc(ctx, b, name, what, text, hs=hs)
             if len(b.reqs) > 2000:
                 b.flush()
         b.flush()
@@ -677,6 +863,8 @@ def run(ctx):
     finally:
         c14om.set_legacy(False)
         b.close()
+        if hs is not None:
+            hs.close()
 
 
 def replay(ctx, case):
@@ -688,12 +876,27 @@ def replay(ctx, case):
     r = c14om.real_parse(text, c.get('legacy', 0))
     print('real parser:', outcome(r), ('@ ' + r[2]) if r[0] == 'err' else '')
     b = c14om.Batch(ctx)
+    hs = None
     try:
+        if not c.get('legacy', 0):
+            import random
+            hs = Histories(random.Random(0))
+            if c.get('warmup'):
+                hs.warm.close()
+                hs.warm_docs = c['warmup']
+                hs.warm = Forker(hs.warm_docs)
+            if c.get('history'):
+                print('recorded history:', c['history'])
+            for h, o in hs.outcomes(text, c.get('base')):
+                print('  %-100s -> %s' % (h, o))
+            check_history(ctx, b, hs, c.get('rule', 'replay'), c.get('what', ''), text, c.get('base'))
         check_doc(ctx, b, c.get('rule', 'replay'), c.get('what', ''), text, c.get('legacy', 0))
         b.flush()
     finally:
         c14om.set_legacy(False)
         b.close()
+        if hs is not None:
+            hs.close()
     for f in ctx.failures:
         print('REPLAY-FAIL', f['sig'], '|', f['what'][:300])
     for f in ctx.divergences:
